@@ -446,6 +446,29 @@ fn panicking_consumer<K: Elem, V: Elem>(c: &mut Ctx, rng: &mut Rng) {
     }
 }
 
+/// A ParDrain that is created and dropped without being driven: the table must end up empty, every element dropped once.
+fn undriven_par_drain(c: &mut Ctx, rng: &mut Rng) {
+    let n = *rng.pick(&[0u32, 3, 20, 300]);
+    let mut m: M<T24, T24> = big_map(n, rng.chance(1, 2), rng);
+    let len = m.len() as u64;
+    let live0 = elem::live_now();
+    let d = m.par_drain();
+    drop(d);
+    c.evaluations += 1;
+    c.sig_parts(&[95, n as u64]);
+    crate::check!(m.is_empty() && m.iter().count() == 0, "a ParDrain dropped without being driven leaves len {}", m.len());
+    crate::check!(elem::live_now() + 2 * len == live0, "a ParDrain dropped without being driven: {} of {} elements not dropped", (elem::live_now() + 2 * len) as i64 - live0 as i64, 2 * len);
+    crate::validate::check_safety(&m.verif_dump(), "undriven par_drain");
+    m.insert(T24::make(1, 1), T24::make(1, 1));
+    crate::check!(m.len() == 1, "map unusable after an undriven ParDrain");
+    let mut t: Tb<T24> = Tb::new_in(CkAlloc);
+    for i in 0..n {
+        t.insert_unique(splitmix64(i as u64), T24::make(i, 0), |e| splitmix64(e.id() as u64));
+    }
+    drop(t.par_drain());
+    crate::check!(t.is_empty(), "HashTable: a ParDrain dropped without being driven leaves len {}", t.len());
+}
+
 /// The real RawIterRange::split along explicit decision trees.
 fn split_trees(c: &mut Ctx, rng: &mut Rng) {
     let w = hashbrown::verif::GROUP_WIDTH;
@@ -553,6 +576,45 @@ fn equivalences(c: &mut Ctx, rng: &mut Rng) {
         a3.insert(P8::make(*k, 0), P8::make(u32::MAX - 7, 0));
         crate::check!(p.install(|| a.par_eq(&a3)) == (a == a3), "par_eq disagrees with == on different maps");
     }
+    // par_extend by reference (Copy element types), set from_par_iter / par_extend (Global allocator only)
+    {
+        use crate::elem::{B2, B6};
+        let pairs: Vec<(B6, B2)> = (0..n).map(|i| (B6::make(i % (n / 2 + 1), 0), B2::make(i, 0))).collect();
+        let mut seq: hashbrown::HashMap<B6, B2, PlanBH, CkAlloc> = hashbrown::HashMap::with_hasher_in(bh, CkAlloc);
+        let mut par: hashbrown::HashMap<B6, B2, PlanBH, CkAlloc> = hashbrown::HashMap::with_hasher_in(bh, CkAlloc);
+        seq.extend(pairs.iter().map(|(k, v)| (k, v)));
+        p.install(|| par.par_extend(pairs.par_iter().map(|(k, v)| (k, v))));
+        let ks = |m: &hashbrown::HashMap<B6, B2, PlanBH, CkAlloc>| {
+            let mut v: Vec<u32> = m.keys().map(|k| k.id()).collect();
+            v.sort();
+            v
+        };
+        crate::check!(ks(&seq) == ks(&par), "par_extend by reference holds {} keys, sequential {}", par.len(), seq.len());
+        let elems: Vec<B6> = (0..n).map(|i| B6::make(i % (n / 3 + 1), 0)).collect();
+        let gs: hashbrown::HashSet<B6, PlanBH> = p.install(|| elems.par_iter().map(|e| B6::make(e.id(), 0)).collect());
+        let mut gs2: hashbrown::HashSet<B6, PlanBH> = hashbrown::HashSet::with_hasher(bh);
+        p.install(|| gs2.par_extend(elems.par_iter().map(|e| B6::make(e.id(), 0))));
+        let mut gs3: hashbrown::HashSet<B6, PlanBH> = hashbrown::HashSet::with_hasher(bh);
+        p.install(|| gs3.par_extend(elems.par_iter()));
+        let want: std::collections::BTreeSet<u32> = elems.iter().map(|e| e.id()).collect();
+        for (name, set) in [("from_par_iter", &gs), ("par_extend", &gs2), ("par_extend(&T)", &gs3)] {
+            let got: std::collections::BTreeSet<u32> = set.iter().map(|e| e.id()).collect();
+            crate::check!(got == want && set.len() == want.len(), "HashSet {}: {} elements, expected {}", name, set.len(), want.len());
+        }
+    }
+    // a cloned parallel iterator delivers the same elements; Debug of the parallel iterators walks the table
+    {
+        let it = a.par_iter();
+        let it2 = it.clone();
+        let (x, y): (usize, usize) = p.install(|| (it.count(), it2.count()));
+        crate::check!(x == a.len() && y == a.len(), "ParIter and its clone count {} / {} of {}", x, y, a.len());
+        let dbg = format!("{:?} {:?} {:?}", a.par_iter(), a.par_keys(), a.par_values());
+        let mut a4 = a.clone();
+        let dbg2 = format!("{:?}", a4.par_iter_mut()) + &format!("{:?}", a4.par_values_mut()) + &format!("{:?}", a4.par_drain());
+        crate::check!(a4.is_empty(), "a par_drain that was created, formatted and dropped without being driven must empty the map (len {})", a4.len());
+        let dbg3 = format!("{:?}", a.clone().into_par_iter());
+        crate::check!(!dbg.is_empty() && !dbg2.is_empty() && !dbg3.is_empty(), "empty Debug output");
+    }
     // parallel set operations
     let sa: S<P8> = (0..n).filter(|i| splitmix64(*i as u64 ^ 1) % 2 == 0).map(|i| P8::make(i, 0)).collect();
     let sb: S<P8> = (0..n).filter(|i| splitmix64(*i as u64 ^ 2) % 3 != 0).map(|i| P8::make(i, 0)).collect();
@@ -584,6 +646,9 @@ pub fn run(c: &mut Ctx) {
         4 => short_circuit::<P8, T24>(c, rng),
         5 => set_table_delivery(c, rng),
         6 => split_trees(c, rng),
-        _ => equivalences(c, rng),
+        _ => {
+            equivalences(c, rng);
+            undriven_par_drain(c, rng);
+        }
     });
 }
